@@ -164,6 +164,11 @@ class _WProxy(object):
             self._real.write(part)
             self._real.flush()
             fs.die()
+        if fs.ioerr_at == n:
+            tear = max(0, min(fs.ioerr.get('tear', 0), len(data)))
+            self._real.write(data[:tear])           # short write, then the error (disk full)
+            self._real.flush()
+            fs.fail(self._rel)
         self.__dict__['_written'] += len(data)
         return self._real.write(data)
 
@@ -209,7 +214,10 @@ class SimFS(object):
     def __init__(self, root, crash=None, perm_seed=None):
         self.root = os.path.realpath(root)
         self.crash = crash or None
-        self.crash_at = crash['event'] if crash else -1
+        self.crash_at = crash['event'] if crash and 'event' in crash and not crash.get('ioerr') else -1
+        # an injected I/O error (ENOSPC, EIO, EACCES ...) instead of a crash: the call fails, the process lives on
+        self.ioerr = crash if crash and crash.get('ioerr') else None
+        self.ioerr_at = self.ioerr['event'] if self.ioerr else -1
         self.perm_seed = perm_seed
         self.log = []
         self.writes = []           # rel paths opened for writing, in order (write log)
@@ -239,6 +247,12 @@ class SimFS(object):
         if self.crash_at == n and kind not in ('write', 'close', 'open-w'):
             self.die()
         return n
+
+    def fail(self, what):
+        import errno as _errno
+        self.marks['ioerr-fired'] = len(self.log) - 1
+        code = self.ioerr.get('errno', _errno.ENOSPC)
+        raise OSError(code, 'simulated I/O error (%s)' % os.strerror(code), what)
 
     def die(self):
         try:
@@ -272,14 +286,18 @@ class SimFS(object):
             if any(c in mode for c in 'wax+'):
                 kind = 'open-w' if 'w' in mode else ('open-a' if 'a' in mode else 'open-x')
                 n = fs.event(kind, rel, mode)
+                if fs.ioerr_at == n:
+                    fs.fail(rel)                    # the open itself fails: nothing is truncated
                 f = _real['open'](file, mode, *a, **kw)
                 fs.writes.append(rel)
                 if fs.crash_at == n:
                     f.flush()
                     fs.die()
                 return _WProxy(fs, f, rel, 'b' in mode)
-            fs.event('open-r', rel, mode)
+            n = fs.event('open-r', rel, mode)
             fs.reads.append(rel)
+            if fs.ioerr_at == n:
+                fs.fail(rel)
             return _real['open'](file, mode, *a, **kw)
 
         def logged(kind, fn, relarg=0):
